@@ -210,17 +210,19 @@ theorem eth_reparse (d0 d1 d2 d3 d4 d5 s0 s1 s2 s3 s4 s5 et : Nat) (het : et < 6
 theorem ipv4_reparse (version ihl dscp ecn totlen ident flags fragoff ttl proto checksum a0 a1 a2 a3 b0 b1 b2 b3 : Nat)
     (hv : version < 16) (hi : ihl < 16) (hd : dscp < 64) (he : ecn < 4) (ht : totlen < 65536) (hid : ident < 65536)
     (hf : flags < 8) (hfo : fragoff < 8192) (hc : checksum < 65536) :
-    Ipv4Hdr.parse (reader (Ipv4Hdr.toBytes ⟨version, ihl, dscp, ecn, totlen, ident, flags, fragoff, ttl, proto, checksum, [a0, a1, a2, a3], [b0, b1, b2, b3]⟩)) =
-      ⟨version, ihl, dscp, ecn, totlen, ident, flags, fragoff, ttl, proto, checksum, [a0, a1, a2, a3], [b0, b1, b2, b3]⟩ := by
+    Ipv4Hdr.parse (reader (Ipv4Hdr.toBytes ⟨version, ihl, dscp, ecn, totlen, ident, flags, fragoff, ttl, proto, checksum, [a0, a1, a2, a3], [b0, b1, b2, b3], []⟩)) =
+      ⟨version, ihl, dscp, ecn, totlen, ident, flags, fragoff, ttl, proto, checksum, [a0, a1, a2, a3], [b0, b1, b2, b3], []⟩ := by
   simp [Ipv4Hdr.parse, Ipv4Hdr.toBytes, reader, be16, u16be]
   omega
 
 /-- TCP: what comes back after serialise + parse.  The data offset is whatever the top nibble of `flags` says and the
 urgent pointer is the next two bytes of the stream (0 here: nothing follows) — both differ from the header written. -/
 theorem tcp_reparse_partial (h : TcpHdr) (h1 : h.srcport < 65536) (h2 : h.dstport < 65536) (h3 : h.seq < 4294967296)
-    (h4 : h.ack < 4294967296) (h5 : h.flags < 65536) (h6 : h.win < 65536) (h7 : h.checksum < 65536) :
+    (h4 : h.ack < 4294967296) (h5 : h.flags < 65536) (h6 : h.win < 65536) (h7 : h.checksum < 65536) (h8 : h.options = []) :
     TcpHdr.parse (reader h.toBytes) = { h with dataoff := h.flags / 4096, urgent := 0 } := by
   cases h
+  simp only at h8
+  subst h8
   simp [TcpHdr.parse, TcpHdr.toBytes, reader, be16, be32, u16be, u32be] at *
   omega
 
